@@ -399,6 +399,8 @@ class MinErrorFlow():
                 self._is_solved = True # START hack to get the corrected graph                
                 corrected_graph = self.get_corrected_graph()
                 self._is_solved = False # END hack to get the corrected graph
+                # The cached solution belongs to the first model: it must not survive the re-solve below
+                self._solution = None
 
                 # Pick 30 random edges of G.edges()
                 edge_subset = [e for e in self.original_graph_copy.edges()]
